@@ -320,6 +320,36 @@ def build(repo=None):
     reads = sorted({n.attr for n in ast.walk(entry) if isinstance(n, ast.Attribute) and isinstance(n.value, ast.Name) and n.value.id == "obj"} |
                    {n.attr for n in ast.walk(am.func("_MetaAbstractArray._check_shape")) if isinstance(n, ast.Attribute) and isinstance(n.value, ast.Name) and n.value.id == "obj"})
     ob("C17:only-static-metadata-attributes-are-read-from-the-checked-object", set(reads) <= META_ATTRS, ["C17"], reads=reads)
+    # symbolic axes: call arguments are visible only to the {...} f-string stage; the arithmetic stage sees bound axis sizes only
+    cd = am.func("_check_dims")
+    cd_params = [a.arg for a in cd.args.args]
+    memo_p, arg_p = (cd_params[2], cd_params[3]) if len(cd_params) == 4 else ("single_memo", "arg_memo")
+    local_defs = {}
+    for n in ast.walk(cd):
+        if isinstance(n, ast.Assign) and len(n.targets) == 1 and isinstance(n.targets[0], ast.Name):
+            local_defs.setdefault(n.targets[0].id, []).append(n.value)
+
+    def scope_names(e, depth=0):
+        out = set()
+        for x in ast.walk(e):
+            if isinstance(x, ast.Name):
+                if x.id in local_defs and x.id not in (memo_p, arg_p) and depth < 3:
+                    for v in local_defs[x.id]:
+                        out |= scope_names(v, depth + 1)
+                else:
+                    out.add(x.id)
+        return out
+
+    evals = [c for c in ast.walk(cd) if isinstance(c, ast.Call) and getattr(c.func, "id", "") == "eval" and len(c.args) >= 2]
+    bad_scopes = []
+    for c in evals:
+        fstage = isinstance(c.args[0], ast.JoinedStr)
+        names = scope_names(c.args[1])
+        if fstage and memo_p in names:
+            bad_scopes.append(("f-string stage sees the axis memo", ast.unparse(c)))
+        if not fstage and arg_p in names:
+            bad_scopes.append(("arithmetic stage sees the call arguments", ast.unparse(c)))
+    ob("C17:symbolic-axis-arithmetic-is-evaluated-over-bound-sizes-only(arguments-enter-through-{...}-only)", len(evals) == 2 and not bad_scopes, ["C17", "C01"], evals=len(evals), bad=bad_scopes)
     # in the wrappers the argument objects go only to bind, the checker-wrapped functions, fn, the argument memo and (error paths) the formatter
     for nested in [n for n in ast.walk(jt) if isinstance(n, ast.FunctionDef) and n.name in ("wrapped_fn", "wrapped_fn_impl")]:
         bad = []
